@@ -4,6 +4,7 @@ pub mod c03;
 pub mod c04;
 pub mod c05;
 pub mod c13;
+pub mod c15;
 
 pub fn get(id: &str) -> Option<Box<dyn Prop>> {
   match id {
@@ -12,6 +13,7 @@ pub fn get(id: &str) -> Option<Box<dyn Prop>> {
     "C04" => Some(Box::new(c04::C04)),
     "C05" => Some(Box::new(c05::C05)),
     "C13" => Some(Box::new(c13::C13)),
+    "C15" => Some(Box::new(c15::C15)),
     _ => None,
   }
 }
